@@ -54,6 +54,22 @@ type histRun struct {
 	now     int
 	hung    bool
 	nonceOn map[int]int
+	lastVer map[string]string
+}
+
+// versionOf: version strings are chosen by the control-plane instance; a restarted or failed-over instance may hand out a
+// version string the client already holds for that type, with different content. One push in seven re-uses the last one.
+func (h *histRun) versionOf(rt string, counter int) string {
+	if h.lastVer == nil {
+		h.lastVer = map[string]string{}
+	}
+	if v, ok := h.lastVer[rt]; ok && h.c.rng.chance(14) {
+		h.c.count("push=version-reused", 1)
+		return v
+	}
+	v := fmt.Sprintf("v%d", counter)
+	h.lastVer[rt] = v
+	return v
 }
 
 // nextNonce numbers the responses per stream, as go-control-plane does: the same nonce strings recur on the next stream.
@@ -229,7 +245,7 @@ func genHistory(c *ctx, prof histProfile, ndsRequired bool) {
 			default:
 				anys = []*anypb.Any{anyNameTable(histTables[ti])}
 			}
-			v, nonce := fmt.Sprintf("v%d", version), h.nextNonce()
+			v, nonce := h.versionOf("nds", version), h.nextNonce()
 			c.count("push=nds", 1)
 			o := obj{"o": "push", "rt": "nds", "v": v, "nonce": nonce, "bad": bad, "empty": empty}
 			if !bad && !empty {
@@ -289,7 +305,7 @@ func genHistory(c *ctx, prof histProfile, ndsRequired bool) {
 				anys = append(anys[:pos], append([]*anypb.Any{badAny(rt, r.intn(3))}, anys[pos:]...)...)
 				c.count("push=bad", 1)
 			}
-			v, nonce := fmt.Sprintf("v%d", version), h.nextNonce()
+			v, nonce := h.versionOf(rt, version), h.nextNonce()
 			c.count("push="+rt, 1)
 			h.step(obj{"o": "push", "rt": rt, "v": v, "nonce": nonce, "slots": slotsJSON(slots)}, func() {
 				w.feed(mkResp(urlOf(rt), v, nonce, anys))
